@@ -24,7 +24,7 @@ def run(ctx):
            and any(isinstance(x, ast.Raise) for x in s.body)]
     ctx.ob("C45.D1-same-width", cname(pk, None, "datums of different width in one collect are rejected"), bool(ifs),
            "" if ifs else "detectors collected together may declare different numbers of frames", where=where(pk, pk.node))
-    ifs = [s for s in A.walk_stmts(pk.node.body) if isinstance(s, ast.If) and "doc['seq_nums'] != StreamRange(start=0, stop=0)" in A.norm(s.test)
+    ifs = [s for s in A.walk_stmts(pk.node.body) if isinstance(s, ast.If) and "doc['seq_nums'] != StreamRange(start=0, stop=0)" in A.norm(q.expand_globals(rm.repo.module(BMOD).tree, q.expand(pk.node, s.test)))
            and any(isinstance(x, ast.Raise) for x in s.body)]
     ctx.ob("C45.D1-same-width", cname(pk, None, "device-supplied seq_nums are rejected"), bool(ifs), "" if ifs else "a device can number its own stream datums", where=where(pk, pk.node))
     # D2
